@@ -52,6 +52,12 @@ def rand_cores(rng, row_dims, col_dims, ranks, cplx=False, kind='gauss'):
         if mixed:
             cplx = flags[i]
         shp = (ranks[i], row_dims[i], col_dims[i], ranks[i + 1])
+        if cplx == 'int':  # integer dtype (a train assembled from counting / indicator arrays)
+            c = rng.integers(-3, 4, size=shp)
+            if not np.any(c):
+                c.flat[0] = 1
+            cores.append(c)
+            continue
         if kind == 'gauss':
             c = randn(rng, shp, cplx)
         elif kind == 'nonneg':
@@ -211,4 +217,6 @@ def right_orthonormal_cores(cores):
 
 def rand_cplx(rng):
     """dtype class of a test train: real, complex, or per-core mixed"""
+    if rng.random() < 0.08:
+        return 'int'
     return [False, True, 'mixed'][int(rng.integers(0, 3))]
